@@ -20,12 +20,12 @@ META = dict(
     functions=P.META["functions"],
     assumptions=P.META["assumptions"] + ["'succeeds' = no error message for any object and every bound resolved"],
     outside=P.META["outside"] + "; permutations beyond the cap for lists longer than 4 (a covering subset is used there)",
-    bounds=dict(quick=dict(cells_active_axis=6, permutations_per_list="all if <= 24 else 24 (structured + seeded)"),
-                thorough=dict(cells_active_axis=[6, 7], permutations_per_list="all if <= 120 else 120 (structured + seeded)")),
+    bounds=dict(quick=dict(cells_active_axis=6, permutations_per_list="all if <= 12 else 12 (identity, reversal, rotations, adjacent swaps, move-to-front/back, seeded)"),
+                thorough=dict(cells_active_axis=[6, 7, 8], permutations_per_list="all if <= 48 else 48 (structured + seeded)")),
     timeout_ms=dict(quick=30000, thorough=120000),
 )
 
-_SKIP_QUICK = {"realcoords-samesize", "extend-grid-offset", "overdetermined-ext-pinned"}  # largest path counts; thorough only
+_SKIP_QUICK = {"realcoords-samesize", "extend-grid-offset", "overdetermined-ext-pinned", "overdetermined-pos-vs-2coords"}  # largest path counts; thorough only
 
 
 def cases(tier, seed):
@@ -34,6 +34,9 @@ def cases(tier, seed):
         if tier == "quick" and (not spec["quick"] or name in _SKIP_QUICK):
             continue
         out.append(dict(name=name, template=name))
+    heavy = ["overdetermined-pos-vs-2coords", "overdetermined-pos-vs-coords-pinned", "overdetermined-pos-vs-coords", "gridcoord-gridmargin", "realcoords-samesize",
+             "extend-grid-offset", "overdetermined-ext-pinned"]
+    out.sort(key=lambda d: heavy.index(d["name"]) if d["name"] in heavy else len(heavy))  # longest cases first (pool scheduling)
     return out
 
 
@@ -84,7 +87,7 @@ def _eq_slices(a, b):
 def run_case(c, case):
     spec = P.templates(c.tier)[case["template"]]
     c.functions.update(META["functions"])
-    cap = 24 if c.tier == "quick" else 120
+    cap = 12 if c.tier == "quick" else 48
     nobj, ncon = len(spec["objects"]), len(spec["constraints"])
     operms = perms(nobj, cap, c.seed)
     cperms = perms(ncon, cap, c.seed)
